@@ -98,7 +98,7 @@ def one(name, notests):
   if notests:
     # the repository's suite with the patch does not depend on /verif: keep the result of the last full validation (and say which /repo HEAD it was for)
     prev = (old.get('confirmed') or {})
-    if prev.get('repo_test_suite_with_patch') and 'skipped' not in str(prev.get('repo_test_suite_with_patch')):
+    if prev.get('repo_test_suite_with_patch') and str(prev.get('repo_test_suite_with_patch')).strip() != 'skipped':
       tests, tests_head = prev['repo_test_suite_with_patch'], prev.get('repo_head_for_test_suite', head)
   meta = {
       'name': name, 'breaks_property': prop, 'needs_to_manifest': needs,
